@@ -6,6 +6,7 @@ import (
 	"time"
 
 	"github.com/superfly/litefs/verifharness/core"
+	"github.com/superfly/litefs/verifharness/faults"
 	"github.com/superfly/litefs/verifharness/repl"
 )
 
@@ -25,5 +26,6 @@ func main() {
 	})
 	repl.OfferedFiles(rep, args)
 	snapshotCleanupFails(rep)
+	faults.Run(rep, args, faults.Select{Ops: []string{"replica_snapshot"}, Monitors: []string{"replica-image"}})
 	rep.Finish()
 }
